@@ -12,7 +12,7 @@ from ..models.cfgselect import Cond, Region, KINDS
 
 # name: (generate?, known key)
 EXCL = {
-    'else-of-ifdef-before-sibling': (False, 'else-pops-enclosing-configuration'),
+    'else-of-ifdef-before-sibling': (True, 'else-pops-enclosing-configuration'),   # defect repaired (fix: 9167c0c): exclusion lifted
     'nested-in-if-not-defined': (False, 'if-not-defined-nested-uses-defined-configuration'),
 }
 
